@@ -6,10 +6,11 @@ from .mapfam import chain_strides, canon, val, vals
 import harness.gen_sub as G
 
 class SCase:
-    __slots__ = ('inst', 'ext', 'str', 'sl', 'stream', 'ops', 'impl', 'model', 'adm', 'h', 'id')
+    __slots__ = ('inst', 'ext', 'str', 'sl', 'stream', 'ops', 'impl', 'model', 'adm', 'h', 'id', 'sl2')
     def __init__(self, inst, ext, strides, sl, stream=''):
         self.inst, self.ext, self.str, self.sl, self.stream = inst, list(ext), strides, list(sl), stream
         self.ops = ['info']; self.impl = []; self.model = []; self.adm = None; self.h = 0; self.id = 0
+        self.sl2 = None      # second-level slices (one strided_slice per dimension of the first result): a view of a view
     @property
     def kind(self): return self.inst[0]
     @property
@@ -17,9 +18,9 @@ class SCase:
     def base(self):
         s = G.line_prefix(self.inst) + ' ext=%s' % C.fmt(self.ext)
         if self.str is not None: s += ' str=%s' % C.fmt(self.str)
-        return s + ' sl=' + ';'.join(self.sl) + ' h=%d id=%d' % (self.h, self.id)
+        return s + ' sl=' + ';'.join(self.sl) + (' sl2=%s' % (';'.join(self.sl2) or '-') if self.sl2 is not None else '') + ' h=%d id=%d' % (self.h, self.id)
     def pub(self):
-        return dict(line=self.base(), source_layout=self.kind, index_type=self.T, extents=self.ext, strides=self.str, slices=self.sl, slice_kinds=self.inst[3], stream=self.stream)
+        return dict(line=self.base(), source_layout=self.kind, index_type=self.T, extents=self.ext, strides=self.str, slices=self.sl, second_level_slices=self.sl2, slice_kinds=self.inst[3], stream=self.stream)
     def out(self, op, side='impl'):
         for o, x in zip(self.ops, getattr(self, side)):
             if o == op: return x
@@ -78,6 +79,23 @@ def spec_alias(c, cap=4096):
             a += (first if step is None else first + next(it) * step) * s
         out.append(a)
     return out
+
+def spec_chain(c, cap=4096):
+    """a view of a view (second level: strided slices): final extents and the root-relative address of every element, per the
+    property text applied twice (element j of the inner view = element o2 + j*s2 of the outer one = source element first + (o2+j*s2)*step)"""
+    exts1, dims = spec_sub(c); ss = src_strides(c)
+    l2 = [parse_slice(s)[1] for s in c.sl2]
+    fin = [0 if x == 0 else -(-x // st) for (o, x, st) in l2]
+    if any(x == 0 for x in fin): return fin, []
+    out = []
+    for js in itertools.islice(itertools.product(*[range(x) for x in fin]), cap):
+        it = iter(zip(js, l2)); a = 0
+        for (first, step), s in zip(dims, ss):
+            if step is None: a += first * s
+            else:
+                j, (o2, x2, s2) = next(it); a += (first + (o2 + j * s2) * step) * s
+        out.append(a)
+    return fin, out
 
 def parse_info(s):
     if s is None or not s.startswith('off='): return None
@@ -151,6 +169,25 @@ def gen_cases(seed, tier, insts):
         st = chain_strides(rnd, ext) if kind == 'stride' else None
         if st is not None and max(st) > H: continue
         c = SCase(inst, ext, st, sl, 'boundary'); c.ops = ['info'] + (['alias'] if size <= 64 else []); cases.append(c)
+    # views of views: a second submdspan (strided slices) applied to the result of the first
+    run_time = [i for i in insts if all(k in 'irfst' for k in i[3]) and len(i[3]) >= 1]
+    for _ in range(700 if not thorough else 6000):
+        inst = rnd.choice(run_time); kind, t, pat, ks = inst; H = C.hi(t)
+        ext = [p if p is not None else rnd.choice([0, 1, 2, 3, 4, 5, 6, 7]) for p in pat]
+        per = [slice_values(k, e) for k, e in zip(ks, ext)]
+        if any(len(p) == 0 for p in per): continue
+        sl = [rnd.choice(p) for p in per]
+        st = chain_strides(rnd, ext) if kind == 'stride' else None
+        if st is not None and max(st + [0]) > H: continue
+        c = SCase(inst, ext, st, sl, 'chain'); exts1, _ = spec_sub(c)
+        sl2 = []
+        for x1 in exts1:
+            m = rnd.random()
+            if m < 0.2: o, x = x1, 0                                       # empty, at the end of the first view's extent
+            elif m < 0.4 and x1 >= 2: o = rnd.randint(1, x1 // 2); x = o      # offset == extent != 0
+            else: o = rnd.randint(0, x1); x = rnd.randint(0, x1 - o)
+            sl2.append('s:%d:%d:%d' % (o, x, rnd.choice([1, 1, 2, 3])))
+        c.sl2 = sl2; c.ops = ['ch']; cases.append(c)
     # boundary, empty slice at the end of one extent while the other slices start at the far end of a source whose span is at the
     # top of the index type: the start offset of such a view is the span itself, not a sum that leaves the index type
     ne = 150 if not thorough else 1500
@@ -184,7 +221,7 @@ def build_server(config='gcc20-ubsan', full=False):
 def run_cases(cases, exe):
     il = []; ml = []
     for c in cases:
-        b = c.base(); ml.append(b + ' adm')
+        b = c.base(); ml.append(b + (' adm' if c.sl2 is None else ' chadm'))
         for op in c.ops: il.append(b + ' ' + op); ml.append(b + ' ' + op)
     io = C.pipe(exe, il); mo = C.driver(ml); pi = pm = 0
     for c in cases:
